@@ -198,6 +198,15 @@ def run_case(case):
         i = int(bad[0])
         fails.append(fail("nominal_degree_exactness", "monomial exponents %r: %r, exact %r (points per dim %r, nominal degrees %r)" % (exps[i], val[i], exact[i], npts, degs),
                           dict(key, degree0=(sum(exps[i]) == 0))))
+    # two public entry points, one rule: for the nodal families sum_i w_i f(p_i) over get_points_and_weights() is what integrate() returns
+    if not hierarchical and len(w) == len(pts) and len(pts):
+        pw = np.zeros(len(exps))
+        for pp, ww in zip(pts, w):
+            pw += float(ww) * np.asarray(f.eval(tuple(pp)), dtype=float)
+        if val.shape != pw.shape or not np.all(np.abs(val - pw) <= rtol * scale):
+            i = int(np.argmax(np.abs(val - pw) / scale)) if val.shape == pw.shape else 0
+            fails.append(fail("integrate_equals_points_and_weights", "monomial exponents %r: integrate() %r, sum of weights x values over get_points_and_weights() %r"
+                              % (exps[i], val[i] if val.shape == pw.shape else val.shape, pw[i]), key))
     outcome = (len(pts), tuple(degs))
     # trapezoid: boundary points off == on minus global boundary points, same weights
     if name == "trapezoidal":
@@ -259,14 +268,20 @@ def cases(tier):
                     for box in itertools.product(*boxes1):
                         out.append({"config": {"family": name, "d": d, "level": list(lv), "a": a, "b": b,
                                                "start": [x[0] for x in box], "end": [x[1] for x in box]}})
+                # deeper levels in one dimension (behaviour that only starts at 33, 65, 129 points)
+                if d == 1 and name not in ("leja",):
+                    for lv in ((5,), (6,)) + (((7,),) if name in ("trapezoidal", "simpson", "clenshaw_curtis") else ()):
+                        for box in itertools.product(*[sub_boxes_1d(a[0], b[0], 1)]):
+                            out.append({"config": {"family": name, "d": 1, "level": list(lv), "a": a, "b": b,
+                                                   "start": [x[0] for x in box], "end": [x[1] for x in box]}})
     # d = 3 (low levels): formulas that are only right in one and two dimensions
     a3, b3 = [0.0, -1.0, 2.0], [1.0, 3.0, 4.0]
     for name in ("trapezoidal", "simpson", "clenshaw_curtis", "gauss_legendre", "leja", "lagrange2", "bspline1"):
         L3 = 2 if name in ("trapezoidal", "simpson") else 1
         boxes1 = [sub_boxes_1d(a3[k], b3[k], 1) for k in range(3)]
         for lv in itertools.product(range(0, L3 + 1), repeat=3):
-            if tier == "quick" and name not in ("trapezoidal",) and sorted(lv) != list(lv):
-                continue                     # quick: ascending level vectors only for the other families
+            if tier == "quick" and name not in ("trapezoidal",) and sorted(lv) != list(lv) and tuple(lv) not in ((2, 0, 1), (1, 2, 0), (2, 1, 0)):
+                continue                     # quick: ascending level vectors (and three permutations of (0,1,2)) for the other families
             for box in itertools.product(*boxes1):
                 out.append({"config": {"family": name, "d": 3, "level": list(lv), "a": a3, "b": b3,
                                        "start": [x[0] for x in box], "end": [x[1] for x in box]}})
